@@ -55,18 +55,6 @@ theorem RS.inv_put {buflen : Nat} {p : Bytes} {s : RS} (h : RS.Inv buflen p s) (
     RS.Inv buflen (p ++ q) (s.put buflen q) := RS.inv_update h q
 
 
-/-! ### every attribute table in a tree satisfies the hash-table invariant -/
-
-mutual
-def TabsWF : Tree → Prop
-  | .tag _ attrs ks => (∀ tab, attrs = some tab → HashTab.WF tab) ∧ TabsWFKids ks
-  | .text _ ks => TabsWFKids ks
-  | .unknown ks => TabsWFKids ks
-def TabsWFKids : List Tree → Prop
-  | [] => True
-  | k :: ks => TabsWF k ∧ TabsWFKids ks
-end
-
 /-! ### the attribute loop -/
 
 def shown (par : Option (Option HashTab)) (e : Entry) : Bool := ¬ (e.1 = xmlnsKey ∧ elideNs par e.2)
